@@ -998,8 +998,8 @@ def batched_root_contract(ctx, eqn, iv):
 
 
 def prove_pair(h, setup, pname, fn, cap=60):
-    """translation validation of one helper: helper == reference for ALL inputs (one solver query over every input symbol);
-    when that query is not unsat, a counterexample is searched on slices (inputs pinned to seeded sample points, dt and the
+    """translation validation of one helper: helper == reference for ALL inputs (one solver query over every input symbol, the
+    deciding step); before it, counterexamples are searched on slices (inputs pinned to seeded sample points, dt and the
     cotangents free in the replay box) and replayed on the UNMODIFIED material: real helper vs real reference"""
     mat = setup.mat
     name = '%s[%s]' % (pname, mat.kind)
@@ -1057,20 +1057,20 @@ def prove_pair(h, setup, pname, fn, cap=60):
             if vac == 'unsat':
                 rec['status'] = 'vacuous'
         return rec
-    rec = finish(h.prove(name, base, atom, inputs=c.inp, concrete=concrete, cap=cap, order=('nlsat', 'core'), check_vacuity=False))
-    if rec['status'] in ('discharged', 'violated', 'vacuous'):
-        return rec
-    st = rec['status']
-    h.records.remove(rec)            # undecided on the all-input query (unknown, or a model that does not replay): search on slices
-    # counterexample search on slices
-    for k in range(4):
+    # (1) cheap refutation attempts on slices: X, U, iv, Ubc pinned to seeded sample points, dt and the cotangents free in the replay
+    #     box (nearly ground queries).  A model found here is a model of the all-input query; it is replayed on the unmodified code.
+    for k in range(3):
         sliced = base + pins_of(o4_example(mat, onp.random.default_rng(h.seed + 100 + k)), free=('dt', 'av', 'vx')) + o4_box(c.inp, mat)
-        st2, _, _, _, _ = sym.solve([sym.tob(x) for x in sliced] + [atom.neg(1e-5)], 20, order=('nlsat', 'core'))
+        st2 = sym.solve([sym.tob(x) for x in sliced] + [atom.neg(1e-5)], 10, order=('nlsat', 'core'))[0]
         if st2 == 'sat':
-            return finish(h.prove(name, sliced, atom, inputs=c.inp, concrete=concrete, cap=20, order=('nlsat', 'core'), check_vacuity=False,
-                                  note='the all-input query returned %s; counterexample found on slice %d (X, U, iv, Ubc pinned to a seeded sample)' % (st, k)))
-    h.records.append(rec)
-    return rec
+            rec = finish(h.prove(name, sliced, atom, inputs=c.inp, concrete=concrete, cap=20, order=('nlsat', 'core'), check_vacuity=False,
+                                 note='counterexample found on slice %d (X, U, iv, Ubc pinned to a seeded sample point)' % k))
+            if rec['status'] == 'violated':
+                return rec
+            h.records.remove(rec)
+    # (2) the deciding query: all inputs free
+    z3.set_param('memory_max_size', 6000)        # MB: a model search that explodes ends as `unknown` (inconclusive), not as a killed worker
+    return finish(h.prove(name, base, atom, inputs=c.inp, concrete=concrete, cap=cap, order=('nlsat', 'core'), check_vacuity=False))
 
 
 def _o4_meta(h, mat):
